@@ -119,6 +119,13 @@ Definition interdiff_of (n r : nat) (inter : list bool) (Dkj : mat) : mat :=
 Definition interdiffusivity (vp : bool) (r : nat) (X : vec) (inter : list bool) (M yva : vec) (P : mat) : mat :=
   interdiff_of (length X) r inter (chemical_diffusivity vp X inter M yva P).
 
+(* databases that carry diffusivity instead of mobility parameters (Al-Zr among the shipped ones):
+   tracer_diffusivity_from_diff = diffusivity_correction * callable ;
+   interdiffusivity_from_diff   = those values of the non-reference elements on the diagonal *)
+Definition tracer_from_diff (corr raw : vec) : vec := computedMob corr raw.
+Definition interdiff_from_diff (n r : nat) (corr raw : vec) : mat :=
+  mkmat (n - 1) (n - 1) (fun a b => if Nat.eqb a b then vget (computedMob corr raw) (skip r a) else zero O).
+
 (* ---- FreeEnergyHessian.py ---------------------------------------------------------------------- *)
 (* data of the phase record at the composition set:
      nsv = num_statevars, p = phase_dof, s = num_internal_cons, n = len(elements)
